@@ -591,15 +591,14 @@ func checkSendEvidence(p *Prog, r *Report, rule string) {
 	fFast := p.Field("segment", "fastack")
 	nInc := 0
 	for _, st := range p.FieldStores(fFast) {
-		ids, ok := st.Node.(*ast.IncDecStmt)
-		if !ok || ids.Tok != token.INC {
+		if _, ok := p.incBy1(st.Node); !ok {
 			continue
 		}
 		nInc++
 		fi := st.Fn
 		root := rootFuncInfo(fi)
 		cc := p.CFG(fi)
-		pt, _ := cc.PointOf(ids)
+		pt, _ := cc.PointOf(st.Node)
 		var conds []*Term
 		for _, ct := range cc.DominatingConds(pt) {
 			conds = append(conds, Conjuncts(p.ExpandHelpers(ct))...)
@@ -635,9 +634,9 @@ func checkSendEvidence(p *Prog, r *Report, rule string) {
 		}
 		construct := "fastack++ in " + root.Name
 		if later && notSame && notNewer {
-			r.ok(rule, root.Name, p.Pos(ids), construct, "only for an ack of a later sequence number whose echoed timestamp is not older than the segment's")
+			r.ok(rule, root.Name, p.Pos(st.Node), construct, "only for an ack of a later sequence number whose echoed timestamp is not older than the segment's")
 		} else {
-			r.bad(rule, root.Name, p.Pos(ids), construct, fmt.Sprintf("counts without evidence of being overtaken (acked sn later: %v, different segment: %v, segment sent no later than the acked one: %v)", later, notSame, notNewer), "")
+			r.bad(rule, root.Name, p.Pos(st.Node), construct, fmt.Sprintf("counts without evidence of being overtaken (acked sn later: %v, different segment: %v, segment sent no later than the acked one: %v)", later, notSame, notNewer), "")
 		}
 	}
 	if nInc == 0 {
@@ -701,11 +700,11 @@ func hasNothingNew(p *Prog, conds []*Term, fi *FuncInfo) bool {
 				incs := 0
 				okAll := true
 				for _, a := range p.Assignments(fi, v) {
-					if ids, ok := a.Node.(*ast.IncDecStmt); ok && ids.Tok == token.INC {
+					if _, ok := p.incBy1(a.Node); ok {
 						incs++
 						// same block as a snd_buf.Push
 						c := p.CFG(fi)
-						pt, _ := c.PointOf(ids)
+						pt, _ := c.PointOf(a.Node)
 						hasPush := false
 						for _, nd := range pt.B.Nodes {
 							inspectShallow(nd, func(x ast.Node) bool {
